@@ -48,22 +48,27 @@ func (fc *fileCache) Add(key Key, content io.Reader) (err error) {
 	if err != nil {
 		return
 	}
+	verifCrashPoint("after-createtemp")
 	defer func() {
 		file.Close()
 		if err != nil {
 			_ = os.Remove(file.Name())
 		}
 	}()
-	if _, err = io.Copy(file, content); err != nil {
+	if _, err = io.Copy(file, verifCrashReader(content)); err != nil {
 		return
 	}
+	verifCrashPoint("after-copy")
 	if err = file.Sync(); err != nil {
 		return
 	}
+	verifCrashPoint("after-sync")
 	if err = file.Close(); err != nil {
 		return
 	}
+	verifCrashPoint("after-close")
 	err = os.Rename(file.Name(), path)
+	verifCrashPoint("after-rename")
 	return
 }
 
